@@ -122,7 +122,9 @@ func FirstIsLower(s string) bool {
 	if r, _ := utf8.DecodeRuneInString(s); r >= utf8.RuneSelf {
 		// The first character is not ASCII: inspect the whole rune, not
 		// its first byte.
-		return unicode.IsLetter(r) && !unicode.IsUpper(r)
+		// Letters without case (CJK, Hebrew) and title-case letters are
+		// letters that are not upper case, but they are not lower case either.
+		return unicode.IsLower(r)
 	}
 	first := rune(s[0])
 	if len(s) == 0 || !unicode.IsLetter(first) {
